@@ -4,9 +4,10 @@
    Level I = chibicc's separate deciders (push_args, pop loop, assign_lvar_offsets, spill loop,
    va_area, stdarg.h walkers, struct returns, the push/pop slot stack).  SysV_graph.cfg explores the
    allocator graph (every reachable (gp, sse, parity, phase) x kind x {fixed, variadic} x
-   {register, memory} return), SysV_sigs.cfg every signature of length <= MaxLen over 29 kinds,
+   {register, memory} return), SysV_sigs.cfg every signature of length <= MaxLen over 31 kinds,
    SysV_rets.cfg every return kind.  Disagreement classes that are open findings are waived (the
    set comes from findings' `model_classes`), anything else is a TLC counterexample -> violation.
+   After an open-finding transition the side that did not deviate is explored further (cj/ej/fj).
    Sensitivity control: the pinned deciders (SysV_pinned.cfg, FixOffset etc. FALSE) must be rejected.
 2. Generate -> replay: every transition TLC writes out is a signature with the psABI location of
    every argument and the classes of disagreement the model predicts.  Each selected signature is
@@ -15,7 +16,10 @@
    (gcc side: also frame alignment and an aligned SSE store), the caller reports the returned
    value, an expression value computed around the call (pending pushes, depth 0..3, or the call as
    an argument of another call) and (gcc side) rbx/r12-r15 kept across the call.  Expected output:
-   values are transferred intact.  gcc x gcc validates the harness and is the tie-break.
+   values are transferred intact.  gcc x gcc validates the harness and is the tie-break.  A linking is
+   judged only while the model vouches for its chibicc side(s); probe extensions (one more S24 after a
+   variadic fetch, one more long and double after a named parameter) and one representative per
+   stratum of fetch / exhaustion situations make the state a step leaves behind observable.
 """
 import json, os, subprocess
 import vt
